@@ -352,14 +352,20 @@ pub fn realise(raw: &RawFacts, cfg: &GenCfg) -> Facts {
     let n = raw.nodes.len();
     // ---- parent structure over node indices (parents always have a smaller index)
     let mut par: Vec<Vec<usize>> = vec![Vec::new(); n];
-    let first_free = if cfg.standard { 2.min(n) } else { 0 };
+    // HP:0000001 is node `off`, HP:0000118 node `off + 1`. In one standard ontology of eight, HP:0000001 is not the
+    // top of the graph: another term (node 0) is its parent.
+    let off = usize::from(cfg.standard && n >= 3 && raw.keys.len() >= 64 && raw.keys[57] % 8 == 0);
+    let first_free = if cfg.standard { (2 + off).min(n) } else { 0 };
     for i in 0..n {
-        if cfg.standard && i == 0 {
+        if cfg.standard && i == off {
+            if off == 1 {
+                par[1].push(0);
+            }
             continue;
         }
-        if cfg.standard && i == 1 {
+        if cfg.standard && i == off + 1 {
             if !raw.detach_118 {
-                par[1].push(0);
+                par[i].push(off);
             }
             continue;
         }
@@ -454,11 +460,11 @@ pub fn realise(raw: &RawFacts, cfg: &GenCfg) -> Facts {
         rank[*i] = r;
     }
     for i in 0..n {
-        if cfg.standard && i == 0 {
+        if cfg.standard && i == off {
             ids.push(1);
             continue;
         }
-        if cfg.standard && i == 1 {
+        if cfg.standard && i == off + 1 {
             ids.push(118);
             continue;
         }
@@ -522,7 +528,7 @@ pub fn realise(raw: &RawFacts, cfg: &GenCfg) -> Facts {
                 }
             }
         });
-        let name = if cfg.standard && i == 0 && node.name.is_empty() {
+        let name = if cfg.standard && i == off && node.name.is_empty() {
             "All".to_string()
         } else {
             node.name.clone()
@@ -737,6 +743,9 @@ pub fn labels(f: &Facts, m: &Model) -> Vec<&'static str> {
     }
     if m.has(0) {
         l.push("id0");
+    }
+    if m.has(1) && !m.parents[m.i(1)].is_empty() {
+        l.push("HP:0000001-has-a-parent");
     }
     if m.has(ID_SPACE - 1) {
         l.push("id9999999");
